@@ -29,51 +29,56 @@ EXTENDS Naturals, FiniteSets
 CONSTANT MaxJobs
 
 VARIABLES n,     \* number of jobs of this call
+          withPP,\* whether a post-processor is configured for this call (none: files are written as they are)
           st,    \* st[j]: how far job j got
           ret    \* "none" | "ok" | "err"
-avars == <<n, st, ret>>
+avars == <<n, withPP, st, ret>>
 
 AJobs == 1..n
 AStates == {"idle", "inpp", "ppok", "ppfail", "inwr", "wrok", "wrfail"}
 
 ATypeOK == /\ n \in 0..MaxJobs
+           /\ withPP \in BOOLEAN
            /\ st \in [AJobs -> AStates]
            /\ ret \in {"none", "ok", "err"}
 
 AInit == /\ n \in 0..MaxJobs
+         /\ withPP \in BOOLEAN
          /\ st = [j \in 1..n |-> "idle"]
          /\ ret = "none"
 
 AFailed(j) == st[j] \in {"ppfail", "wrfail"}
 
 \* PostProcess is entered for job j (with j's path and content)
-APPBegin(j) == /\ st[j] = "idle"
+APPBegin(j) == /\ withPP
+               /\ st[j] = "idle"
                /\ st' = [st EXCEPT ![j] = "inpp"]
-               /\ UNCHANGED <<n, ret>>
+               /\ UNCHANGED <<n, withPP, ret>>
 
 \* PostProcess returns for job j; a failure is incompatible with a success already returned
 APPEnd(j, ok) == /\ st[j] = "inpp"
                  /\ (ok \/ ret # "ok")
                  /\ st' = [st EXCEPT ![j] = IF ok THEN "ppok" ELSE "ppfail"]
-                 /\ UNCHANGED <<n, ret>>
+                 /\ UNCHANGED <<n, withPP, ret>>
 
 \* the write of job j (own path, post-processed own content) starts: only after a
-\* successful post-process, only once, never after the call has returned
-AWriteBegin(j) == /\ st[j] = "ppok"
+\* successful post-process (if there is a post-processor), only once, never after the
+\* call has returned
+AWriteBegin(j) == /\ st[j] = (IF withPP THEN "ppok" ELSE "idle")
                   /\ ret = "none"
                   /\ st' = [st EXCEPT ![j] = "inwr"]
-                  /\ UNCHANGED <<n, ret>>
+                  /\ UNCHANGED <<n, withPP, ret>>
 
 AWriteEnd(j, ok) == /\ st[j] = "inwr"
                     /\ st' = [st EXCEPT ![j] = IF ok THEN "wrok" ELSE "wrfail"]
-                    /\ UNCHANGED <<n, ret>>
+                    /\ UNCHANGED <<n, withPP, ret>>
 
 AReturn(r) == /\ ret = "none"
               /\ \A j \in AJobs : st[j] # "inwr"                   \* no write in flight
               /\ (r = "ok") => \A j \in AJobs : st[j] = "wrok"     \* success only if all written
               /\ (\E j \in AJobs : AFailed(j)) => r = "err"       \* any failed step => error
               /\ ret' = r
-              /\ UNCHANGED <<n, st>>
+              /\ UNCHANGED <<n, withPP, st>>
 
 ANext == \/ \E j \in AJobs : APPBegin(j) \/ AWriteBegin(j)
          \/ \E j \in AJobs, ok \in BOOLEAN : APPEnd(j, ok) \/ AWriteEnd(j, ok)
